@@ -74,6 +74,13 @@ def cases(tier):
     rts2 = [R("pick", "uint32_t", ["uint32_t x", "uint32_t y"], "{ return (0 ? clz32(x) : clo32(x)) + clz32(y); }")]
     for st in ["r = pick(a, b);", "r = pick(a, b) + pick(b, a);"]:
         out.append((rts2, P(d, st, ["r"]), ("folded-call-body", st)))
+    # value-producing operations inside returned expressions, in arms and after loops
+    rts_r = [R("pickr", "int32_t", ["int32_t x"], "{ int32_t pickr_n = x; if (x > 0) { return pickr_n++; } else { return pickr_n--; } }"),
+             R("route", "uint32_t", ["uint32_t x"], "{ if (x == 0) { return 7; } else { return clz32(x); } }"),
+             R("lsum", "uint32_t", ["uint32_t x"], "{ uint32_t lsum_s = 0; int32_t lsum_i; for (lsum_i = 0; lsum_i < 3; lsum_i++) { lsum_s += x; } return lsum_s + clo32(x); }"),
+             R("rexp", "int32_t", ["int32_t x"], "{ if (x & 1) { return ({ int32_t rexp_t = x + 1; rexp_t; }); } else { return clz32(x) + clo32(x); } }")]
+    for st in ["r = pickr(a);", "r = route(a);", "r = route(a) + route(b);", "r = lsum(a);", "r = rexp(a);", "r = pickr(a) + rexp(b);", "if (b) { r = route(a); } else { r = pickr(a); }"]:
+        out.append((rts_r, P(d, st, ["r"]), ("return-hybrid", st)))
     rts = [R("early", "int32_t", ["int32_t x"], "{ if (x == 0) { return 77; } return x + 1; }")]
     for st in ["r = early(a);", "r = early(a) + early(b);"]:
         out.append((rts, P(d, st, ["r"]), ("early-return", st)))
